@@ -66,17 +66,35 @@ Section Proofs.
         * apply Nat.eqb_neq in E5. assert (E3 : (h <=? k) = false) by (apply Nat.leb_gt; lia). rewrite E3. reflexivity.
   Qed.
 
-  Lemma temp_from_all : forall bs t h, (forall i, i < length bs -> lookup (h + i) t = nth_error bs i) ->
-    temp_from t h (length bs) = bs.
+  Lemma lookup_unbind : forall t h k, lookup k (unbind h t) = if Nat.eqb k h then None else lookup k t.
   Proof.
-    induction bs as [|b r IH]; intros t h H; cbn [length temp_from]; [reflexivity|].
-    pose proof (H 0 ltac:(cbn; lia)) as H0. rewrite Nat.add_0_r in H0. cbn in H0. rewrite H0. f_equal.
-    apply IH. intros i Hi. replace (S h + i) with (h + S i) by lia. rewrite (H (S i)) by (cbn; lia). reflexivity.
+    induction t as [|[a v] r IH]; intros h k; cbn [unbind filter lookup fst].
+    - destruct (Nat.eqb k h); reflexivity.
+    - destruct (Nat.eqb a h) eqn:E1; cbn [negb].
+      + fold (unbind h r). rewrite IH. apply Nat.eqb_eq in E1. subst a.
+        destruct (Nat.eqb k h) eqn:E2; [reflexivity|]. rewrite Nat.eqb_sym, E2. reflexivity.
+      + cbn [lookup]. fold (unbind h r). rewrite IH. destruct (Nat.eqb a k) eqn:E3; [|reflexivity].
+        apply Nat.eqb_eq in E3. subst a. rewrite E1. reflexivity.
   Qed.
 
-  Lemma temp_from_saved : forall bs h, temp_from (save_from h bs []) h (length bs) = bs.
+  Lemma restore_apply_all : forall bs c t h, (forall i, i < length bs -> lookup (h + i) t = nth_error bs i) ->
+    all_valid valid c bs -> exists t', restore_apply valid c t h (length bs) = (c ++ bs, t', true).
   Proof.
-    intros bs h. apply temp_from_all. intros i Hi. rewrite lookup_save_from.
+    induction bs as [|b r IH]; intros c t h H Hv; cbn [length restore_apply].
+    - exists t. rewrite app_nil_r. reflexivity.
+    - pose proof (H 0 ltac:(cbn; lia)) as H0. rewrite Nat.add_0_r in H0. cbn in H0. rewrite H0.
+      destruct Hv as [Hv Hr]. rewrite Hv.
+      destruct (IH (c ++ [b]) (unbind h t) (S h)) as [t' Ht'].
+      + intros i Hi. rewrite lookup_unbind. assert (E : Nat.eqb (S h + i) h = false) by (apply Nat.eqb_neq; lia). rewrite E.
+        replace (S h + i) with (h + S i) by lia. rewrite (H (S i)) by (cbn; lia). reflexivity.
+      + exact Hr.
+      + exists t'. rewrite Ht', <- app_assoc. reflexivity.
+  Qed.
+
+  Lemma restore_saved : forall bs c h, all_valid valid c bs ->
+    exists t', restore_apply valid c (save_from h bs []) h (length bs) = (c ++ bs, t', true).
+  Proof.
+    intros bs c h Hv. apply restore_apply_all; [|exact Hv]. intros i Hi. rewrite lookup_save_from.
     assert (E1 : (h <=? h + i) = true) by (apply Nat.leb_le; lia).
     assert (E2 : (h + i <? h + length bs) = true) by (apply Nat.ltb_lt; lia).
     rewrite E1, E2. cbn [andb]. replace (h + i - h) with i by lia. reflexivity.
@@ -86,88 +104,118 @@ Section Proofs.
   Proof. induction bs; intros; cbn [save_from length]; [reflexivity|]. rewrite IHbs. cbn. lia. Qed.
 
   (* ---------------------------------------------------------------- convergence with an honest peer *)
+  Ltac pre_checks Hc Hn :=
+    rewrite Hc, (index_of_mid _ _ _ Hn).
+
+  Lemma delete_till_mid : forall n pre cid own save, chain n = pre ++ cid :: own -> finalized n <= length pre ->
+    delete_till n (length pre) save =
+    ({| chain := pre ++ [cid]; temp := if save then save_from (S (length pre)) own (temp n) else temp n;
+        finalized := finalized n; banned := banned n |}, true).
+  Proof.
+    intros n pre cid own save Hc Hf. unfold delete_till. rewrite Nat.max_l by lia. rewrite Hc, firstn_mid, skipn_mid.
+    assert (E : (finalized n <=? length pre) = true) by (apply Nat.leb_le; lia). rewrite E. reflexivity.
+  Qed.
+
   (* own chain = pre ++ cid :: own, peer's chain = pre ++ cid :: blocks; the peer answers cid and delivers blocks *)
   Lemma honest_peer_converges_fast : forall rs n pre cid own blocks th r2,
     chain n = pre ++ cid :: own -> ~ In cid pre ->
     finalized n <= length pre -> length own <= r2 -> th - length pre <= r2 ->
     all_valid valid (pre ++ [cid]) blocks ->
-    fast_sync valid rs n (Some cid) blocks th r2 =
+    fast_sync valid rs n (Some cid) blocks EndOk th r2 =
     ({| chain := pre ++ cid :: blocks; temp := []; finalized := finalized n; banned := banned n |}, Synced).
   Proof.
-    intros rs n pre cid own blocks th r2 Hc Hn Hf Ho Ht Hv. unfold fast_sync. rewrite Hc, (index_of_mid _ _ _ Hn).
+    intros rs n pre cid own blocks th r2 Hc Hn Hf Ho Ht Hv. unfold fast_sync. assert (Hi : index_of cid (chain n) = Some (length pre)) by (rewrite Hc; apply index_of_mid; exact Hn).
+    assert (Hl : length (chain n) = length pre + S (length own)) by (rewrite Hc, app_length; reflexivity).
+    rewrite Hi, Hl.
     assert (E1 : (length pre <? finalized n) = false) by (apply Nat.ltb_ge; lia). rewrite E1.
-    rewrite app_length. cbn [length].
     assert (E2 : (r2 <? length pre + S (length own) - 1 - length pre) = false) by (apply Nat.ltb_ge; lia).
     assert (E3 : (r2 <? th - length pre) = false) by (apply Nat.ltb_ge; lia). rewrite E2, E3. cbn [orb].
-    unfold delete_till. assert (E4 : (finalized n <=? length pre) = true) by (apply Nat.leb_le; lia). rewrite E4.
-    cbn [chain]. rewrite Hc, firstn_mid, (apply_all_valid _ _ Hv). unfold clear_temp, with_chain. cbn [chain finalized banned].
-    rewrite <- app_assoc. reflexivity.
+    rewrite (delete_till_mid n pre cid own true Hc Hf). cbn [negb chain]. rewrite (apply_all_valid _ _ Hv).
+    unfold clear_temp, with_chain. cbn [chain finalized banned]. rewrite <- app_assoc. reflexivity.
   Qed.
 
   Lemma honest_peer_converges_block : forall n pre cid own blocks,
     chain n = pre ++ cid :: own -> ~ In cid pre -> finalized n <= length pre ->
     all_valid valid (pre ++ [cid]) blocks ->
-    block_sync valid n (Some cid) blocks =
+    block_sync valid n (Some cid) blocks EndOk =
     ({| chain := pre ++ cid :: blocks; temp := []; finalized := finalized n; banned := banned n |}, Synced).
   Proof.
-    intros n pre cid own blocks Hc Hn Hf Hv. unfold block_sync. rewrite Hc, (index_of_mid _ _ _ Hn).
-    unfold delete_till. assert (E4 : (finalized n <=? length pre) = true) by (apply Nat.leb_le; lia). rewrite E4.
-    cbn [chain]. rewrite Hc, firstn_mid, (apply_all_valid _ _ Hv). unfold clear_temp, with_chain. cbn [chain finalized banned].
-    rewrite <- app_assoc. reflexivity.
+    intros n pre cid own blocks Hc Hn Hf Hv. unfold block_sync.
+    assert (Hi : index_of cid (chain n) = Some (length pre)) by (rewrite Hc; apply index_of_mid; exact Hn). rewrite Hi.
+    rewrite (delete_till_mid n pre cid own true Hc Hf). cbn [negb chain]. rewrite (apply_all_valid _ _ Hv).
+    unfold clear_temp, with_chain. cbn [chain finalized banned]. rewrite <- app_assoc. reflexivity.
   Qed.
 
   (* ---------------------------------------------------------------- failing fast sync *)
-  (* with restoreBlocks deleting WITHOUT saving (the repair proposed in docs/C19.md): wherever the first invalid
-     block sits, the original chain is back and the peer is banned *)
-  Lemma failed_fast_sync_restores_and_bans_fixed_model : forall n pre cid own good bad rest th r2,
+  (* REPAIRED code (restoreBlocks deletes without saving): wherever the first invalid block sits, the original
+     chain is back and the peer is banned *)
+  Lemma failed_fast_sync_restores_and_bans : forall n pre cid own good bad rest th r2,
     chain n = pre ++ cid :: own -> ~ In cid pre -> temp n = [] ->
     finalized n <= length pre -> length own <= r2 -> th - length pre <= r2 ->
     all_valid valid (pre ++ [cid]) good -> valid ((pre ++ [cid]) ++ good) bad = false ->
     all_valid valid (pre ++ [cid]) own ->
-    let '(n', o) := fast_sync valid false n (Some cid) (good ++ bad :: rest) th r2 in
+    let '(n', o) := fast_sync valid false n (Some cid) (good ++ bad :: rest) EndOk th r2 in
     chain n' = chain n /\ banned n' = true /\ o = Failed.
   Proof.
     intros n pre cid own good bad rest th r2 Hc Hn Htmp Hf Ho Ht Hg Hbad Hown. unfold fast_sync.
-    rewrite Hc, (index_of_mid _ _ _ Hn).
+    assert (Hi : index_of cid (chain n) = Some (length pre)) by (rewrite Hc; apply index_of_mid; exact Hn).
+    assert (Hl : length (chain n) = length pre + S (length own)) by (rewrite Hc, app_length; reflexivity).
+    rewrite Hi, Hl.
     assert (E1 : (length pre <? finalized n) = false) by (apply Nat.ltb_ge; lia). rewrite E1.
-    rewrite app_length. cbn [length].
     assert (E2 : (r2 <? length pre + S (length own) - 1 - length pre) = false) by (apply Nat.ltb_ge; lia).
     assert (E3 : (r2 <? th - length pre) = false) by (apply Nat.ltb_ge; lia). rewrite E2, E3. cbn [orb].
-    unfold delete_till at 1. assert (E4 : (finalized n <=? length pre) = true) by (apply Nat.leb_le; lia). rewrite E4.
-    cbn [chain]. rewrite Hc, firstn_mid, skipn_mid, Htmp, (apply_all_fails _ _ _ _ Hg Hbad).
-    unfold delete_till, with_chain. cbn [chain finalized temp banned]. rewrite E4.
-    replace ((pre ++ [cid]) ++ good) with (pre ++ cid :: good) by (rewrite <- app_assoc; reflexivity).
-    rewrite firstn_mid. cbn [chain temp finalized banned]. rewrite save_from_length. cbn [length]. rewrite Nat.add_0_r, temp_from_saved.
-    rewrite (apply_all_valid _ _ Hown). unfold ban. cbn [chain banned].
-    split; [rewrite <- app_assoc; reflexivity|]. split; reflexivity.
+    rewrite (delete_till_mid n pre cid own true Hc Hf). cbn [negb chain]. rewrite Htmp.
+    rewrite (apply_all_fails _ _ _ _ Hg Hbad).
+    set (n2 := with_chain _ _).
+    assert (Hc2 : chain n2 = pre ++ cid :: good) by (subst n2; cbn [with_chain chain]; rewrite <- app_assoc; reflexivity).
+    assert (Hf2 : finalized n2 <= length pre) by (subst n2; cbn; exact Hf).
+    rewrite (delete_till_mid n2 pre cid good false Hc2 Hf2). cbn [negb chain temp]. subst n2. cbn [with_chain temp finalized banned].
+    rewrite save_from_length. cbn [length]. rewrite Nat.add_0_r.
+    destruct (restore_saved own (pre ++ [cid]) (S (length pre)) Hown) as [t' Ht']. rewrite Ht'.
+    unfold ban, with_chain_temp. cbn [chain banned]. split; [rewrite Hc, <- app_assoc; reflexivity|]. split; reflexivity.
   Qed.
 
-  (* the code as written (restoreBlocks deletes with saveTemp = true): proved when the FIRST applied block is the
-     invalid one.  Full statement (any position of the invalid block) is refuted below. *)
-  Lemma failed_fast_sync_restores_and_bans_partial : forall n pre cid own bad rest th r2,
+  (* ORIGINAL code (restoreBlocks deleting with saveTemp = true): proved only when the FIRST applied block is invalid *)
+  Lemma failed_fast_sync_orig_first_block_case : forall n pre cid own bad rest th r2,
     chain n = pre ++ cid :: own -> ~ In cid pre -> temp n = [] ->
     finalized n <= length pre -> length own <= r2 -> th - length pre <= r2 ->
     valid (pre ++ [cid]) bad = false -> all_valid valid (pre ++ [cid]) own ->
-    let '(n', o) := fast_sync valid true n (Some cid) (bad :: rest) th r2 in
+    let '(n', o) := fast_sync valid true n (Some cid) (bad :: rest) EndOk th r2 in
     chain n' = chain n /\ banned n' = true /\ o = Failed.
   Proof.
     intros n pre cid own bad rest th r2 Hc Hn Htmp Hf Ho Ht Hbad Hown. unfold fast_sync.
-    rewrite Hc, (index_of_mid _ _ _ Hn).
+    assert (Hi : index_of cid (chain n) = Some (length pre)) by (rewrite Hc; apply index_of_mid; exact Hn).
+    assert (Hl : length (chain n) = length pre + S (length own)) by (rewrite Hc, app_length; reflexivity).
+    rewrite Hi, Hl.
     assert (E1 : (length pre <? finalized n) = false) by (apply Nat.ltb_ge; lia). rewrite E1.
-    rewrite app_length. cbn [length].
     assert (E2 : (r2 <? length pre + S (length own) - 1 - length pre) = false) by (apply Nat.ltb_ge; lia).
     assert (E3 : (r2 <? th - length pre) = false) by (apply Nat.ltb_ge; lia). rewrite E2, E3. cbn [orb].
-    unfold delete_till at 1. assert (E4 : (finalized n <=? length pre) = true) by (apply Nat.leb_le; lia). rewrite E4.
-    cbn [chain]. rewrite Hc, firstn_mid, skipn_mid, Htmp. cbn [apply_all]. rewrite Hbad.
-    unfold delete_till, with_chain. cbn [chain finalized temp banned]. rewrite E4.
-    replace (pre ++ [cid]) with (pre ++ cid :: []) by reflexivity. rewrite firstn_mid, skipn_mid. cbn [save_from].
-    cbn [chain temp finalized banned]. rewrite save_from_length. cbn [length]. rewrite Nat.add_0_r, temp_from_saved.
-    rewrite (apply_all_valid _ _ Hown). unfold ban. cbn [chain banned].
-    split; [rewrite <- app_assoc; reflexivity|]. split; reflexivity.
+    rewrite (delete_till_mid n pre cid own true Hc Hf). cbn [negb chain]. rewrite Htmp.
+    cbn [apply_all]. rewrite Hbad.
+    set (n2 := with_chain _ _).
+    assert (Hc2 : chain n2 = pre ++ cid :: []) by (subst n2; reflexivity).
+    assert (Hf2 : finalized n2 <= length pre) by (subst n2; cbn; exact Hf).
+    rewrite (delete_till_mid n2 pre cid [] true Hc2 Hf2). cbn [negb chain temp save_from]. subst n2. cbn [with_chain temp finalized banned].
+    rewrite save_from_length. cbn [length]. rewrite Nat.add_0_r.
+    destruct (restore_saved own (pre ++ [cid]) (S (length pre)) Hown) as [t' Ht']. rewrite Ht'.
+    unfold ban, with_chain_temp. cbn [chain banned]. split; [rewrite Hc, <- app_assoc; reflexivity|]. split; reflexivity.
+  Qed.
+
+  (* a peer whose stream breaks or carries a statelessly invalid block costs a fast-syncing node nothing *)
+  Lemma fast_sync_bad_stream_no_change : forall rs n common blocks e th r2, e <> EndOk ->
+    chain (fst (fast_sync valid rs n common blocks e th r2)) = chain n /\
+    snd (fast_sync valid rs n common blocks e th r2) <> Synced.
+  Proof.
+    intros rs n common blocks e th r2 He. unfold fast_sync.
+    destruct common as [cid|]; [|cbn; split; [reflexivity|discriminate]].
+    destruct (index_of cid (chain n)) as [hc|]; [|cbn; split; [reflexivity|discriminate]].
+    destruct (hc <? finalized n); [cbn; split; [reflexivity|discriminate]|].
+    destruct (_ || _); [cbn; split; [reflexivity|discriminate]|].
+    destruct e; [congruence| |]; cbn; split; try reflexivity; discriminate.
   Qed.
 End Proofs.
 
-(* the code as written loses the original blocks when some downloaded blocks were applied before the failure:
+(* the original code loses the original blocks when some downloaded blocks were applied before the failure:
    deleting them again with saveTemp = true overwrites the temp entries of the same heights *)
 Definition w_valid (c : list id) (b : id) : bool :=
   match b with
@@ -177,10 +225,10 @@ Definition w_valid (c : list id) (b : id) : bool :=
   | _ => false
   end.
 
-Lemma failed_fast_sync_restores_refuted :
+Lemma failed_fast_sync_restores_orig_refuted :
   exists valid n cid own blocks th r2,
     chain n = [0%N] ++ own /\ cid = 0%N /\ temp n = [] /\ all_valid valid [0%N] own /\
-    let '(n', o) := fast_sync valid true n (Some cid) blocks th r2 in
+    let '(n', o) := fast_sync valid true n (Some cid) blocks EndOk th r2 in
     chain n' <> chain n /\ banned n' = false.
 Proof.
   exists w_valid, {| chain := [0; 1; 2]%N; temp := []; finalized := 0; banned := false |}, 0%N, [1; 2]%N, [11; 12]%N, 2, 4.
@@ -204,46 +252,62 @@ Section Keep.
     rewrite firstn_firstn. replace (Nat.min (S f) (S hc)) with (S f) by lia. reflexivity.
   Qed.
 
-  Lemma delete_till_keeps : forall n hc save n1 x, finalized n < length (chain n) ->
-    delete_till n hc save = Some n1 ->
+  Lemma delete_till_keeps : forall n hc save x, finalized n < length (chain n) ->
+    let n1 := fst (delete_till n hc save) in
     firstn (S (finalized n)) (chain n1 ++ x) = firstn (S (finalized n)) (chain n) /\ finalized n1 = finalized n /\
-    chain n1 = firstn (S hc) (chain n) /\ finalized n <= hc.
+    finalized n1 < length (chain n1).
   Proof.
-    intros n hc save n1 x Hlen H. unfold delete_till in H. destruct (finalized n <=? hc) eqn:E; [|discriminate].
-    apply Nat.leb_le in E. injection H as <-. cbn [chain finalized]. split; [apply firstn_prefix_app; assumption|auto].
+    intros n hc save x Hlen. unfold delete_till. cbn [fst chain finalized].
+    split; [apply firstn_prefix_app; [lia|assumption]|]. split; [reflexivity|]. rewrite firstn_length. lia.
   Qed.
 
-  Lemma fast_sync_keeps_finalized : forall rs n common blocks th r2, finalized n < length (chain n) ->
-    keeps n (fst (fast_sync valid rs n common blocks th r2)).
+  Lemma restore_apply_extends : forall fuel c t h, exists ext, fst (fst (restore_apply valid c t h fuel)) = c ++ ext.
   Proof.
-    intros rs n common blocks th r2 Hlen. unfold fast_sync, keeps.
+    induction fuel as [|k IH]; intros c t h; cbn [restore_apply]; [exists []; rewrite app_nil_r; reflexivity|].
+    destruct (lookup h t) as [b|]; [|exists []; rewrite app_nil_r; reflexivity].
+    destruct (valid c b); [|exists []; rewrite app_nil_r; reflexivity].
+    destruct (IH (c ++ [b]) (unbind h t) (S h)) as [ext He]. exists (b :: ext). rewrite He, <- app_assoc. reflexivity.
+  Qed.
+
+  Lemma fast_sync_keeps_finalized : forall rs n common blocks e th r2, finalized n < length (chain n) ->
+    keeps n (fst (fast_sync valid rs n common blocks e th r2)).
+  Proof.
+    intros rs n common blocks e th r2 Hlen. unfold fast_sync, keeps.
     destruct common as [cid|]; [|cbn; auto]. destruct (index_of cid (chain n)) as [hc|]; [|cbn; auto].
     destruct (hc <? finalized n); [cbn; auto|]. destruct (_ || _); [cbn; auto|].
-    destruct (delete_till n hc true) as [n1|] eqn:E1; [|cbn; auto].
+    destruct e; [|cbn; auto|cbn; auto].
+    destruct (delete_till n hc true) as [n1 ok1] eqn:E1.
+    pose proof (delete_till_keeps n hc true) as K. rewrite E1 in K. cbn [fst] in K.
+    destruct ok1; cbn [negb]; [|destruct (K [] Hlen) as (K1 & K2 & _); rewrite app_nil_r in K1; cbn [fst]; auto].
     destruct (apply_all_extends valid blocks (chain n1)) as [ext He].
     destruct (apply_all valid (chain n1) blocks) as [c2 ok] eqn:Ea. cbn [fst] in He. subst c2.
-    destruct (delete_till_keeps n hc true n1 ext Hlen E1) as (K1 & K2 & K3 & K4).
+    destruct (K ext Hlen) as (K1 & K2 & K3).
     destruct ok; [cbn [fst clear_temp with_chain chain finalized]; auto|].
-    destruct (delete_till (with_chain n1 (chain n1 ++ ext)) hc rs) as [n3|] eqn:E3;
-      [|cbn [fst with_chain chain finalized]; auto].
-    destruct (apply_all_extends valid (temp_from (temp n3) (S hc) (length (temp n3))) (chain n3)) as [ext4 He4].
-    destruct (apply_all valid (chain n3) _) as [c4 ok4] eqn:Ea4. cbn [fst] in He4. subst c4.
-    assert (Hlen1 : finalized (with_chain n1 (chain n1 ++ ext)) < length (chain (with_chain n1 (chain n1 ++ ext)))).
-    { cbn [with_chain chain finalized]. rewrite K2, app_length, K3, firstn_length. lia. }
-    destruct (delete_till_keeps _ hc rs n3 ext4 Hlen1 E3) as (J1 & J2 & _ & _).
-    cbn [with_chain chain finalized] in J1, J2. rewrite K2 in J1, J2.
-    destruct ok4; cbn [fst ban with_chain chain finalized]; (split; [rewrite J1; exact K1|exact J2]).
+    set (n2 := with_chain n1 (chain n1 ++ ext)).
+    assert (Hlen2 : finalized n2 < length (chain n2)) by (subst n2; cbn [with_chain chain finalized]; rewrite app_length; lia).
+    destruct (delete_till n2 hc rs) as [n3 ok3] eqn:E3.
+    pose proof (delete_till_keeps n2 hc rs) as J. rewrite E3 in J. cbn [fst] in J.
+    assert (Hf2 : finalized n2 = finalized n) by (subst n2; cbn; exact K2).
+    assert (Hc2 : chain n2 = chain n1 ++ ext) by reflexivity.
+    destruct ok3; cbn [negb].
+    2:{ destruct (J [] Hlen2) as (J1 & J2 & _). rewrite app_nil_r in J1. cbn [fst]. rewrite Hf2, Hc2 in J1. rewrite J1, J2. auto. }
+    destruct (restore_apply_extends (length (temp n3)) (chain n3) (temp n3) (S hc)) as [ext4 He4].
+    destruct (restore_apply valid (chain n3) (temp n3) (S hc) (length (temp n3))) as [[c4 t4] ok4]. cbn [fst] in He4. subst c4.
+    destruct (J ext4 Hlen2) as (J1 & J2 & _). rewrite Hf2, Hc2 in J1.
+    destruct ok4; cbn [fst ban with_chain_temp chain finalized]; (split; [rewrite J1; exact K1|rewrite J2; exact Hf2]).
   Qed.
 
-  Lemma block_sync_keeps_finalized : forall n common blocks, finalized n < length (chain n) ->
-    keeps n (fst (block_sync valid n common blocks)).
+  Lemma block_sync_keeps_finalized : forall n common blocks e, finalized n < length (chain n) ->
+    keeps n (fst (block_sync valid n common blocks e)).
   Proof.
-    intros n common blocks Hlen. unfold block_sync, keeps.
+    intros n common blocks e Hlen. unfold block_sync, keeps.
     destruct common as [cid|]; [|cbn; auto]. destruct (index_of cid (chain n)) as [hc|]; [|cbn; auto].
-    destruct (delete_till n hc true) as [n1|] eqn:E1; [|cbn; auto].
+    destruct (delete_till n hc true) as [n1 ok1] eqn:E1.
+    pose proof (delete_till_keeps n hc true) as K. rewrite E1 in K. cbn [fst] in K.
+    destruct ok1; cbn [negb]; [|destruct (K [] Hlen) as (K1 & K2 & _); rewrite app_nil_r in K1; cbn [fst]; auto].
     destruct (apply_all_extends valid blocks (chain n1)) as [ext He].
     destruct (apply_all valid (chain n1) blocks) as [c2 ok] eqn:Ea. cbn [fst] in He. subst c2.
-    destruct (delete_till_keeps n hc true n1 ext Hlen E1) as (K1 & K2 & _).
-    destruct ok; cbn [fst clear_temp with_chain chain finalized]; auto.
+    destruct (K ext Hlen) as (K1 & K2 & _).
+    destruct ok; [destruct e|]; cbn [fst clear_temp ban with_chain chain finalized]; auto.
   Qed.
 End Keep.
